@@ -27,7 +27,7 @@ func genSystematic(out *hx.Out, prop string) {
 		w    []string
 	}
 	cfgs := []cfg{
-		{2, "actor x w 0,1 0,1 commit - -", "actor y w 1,0 0 commit - -", []string{"watch 0", "watch 1"}},
+		{2, "actor x w 0,1 0,1 commit - -", "actor y w 1,0 0 commit - -", []string{"lwatch 0", "watch 1"}},
 		{2, "actor x w 0 0 commit - -", "actor y w 1 1 commit - -", []string{"watch 0"}},
 		{2, "actor x w 0,1 1 commit - -", "actor y w 0 0 abort - -", []string{"watch 0", "watch 1"}},
 		{1, "actor x w 0 0 commit 0:1 0:1", "actor y w 0 0 commit - -", []string{"iwatch 0", "watch 0"}},
@@ -74,7 +74,30 @@ func genSystematic(out *hx.Out, prop string) {
 	}
 }
 
+// many tables: duplicates and ordering of table sets beyond 64 tables
+func genManyTables(out *hx.Out, prop string) {
+	out.P("#case many-%s", prop)
+	out.P("tables 67")
+	out.P("actor x w 66,64,66,64,3 64,3 commit - -")
+	out.P("actor y w 65,64,65 65 commit - -")
+	out.P("watch 64")
+	for k := 0; k < 4; k++ {
+		out.P("step x")
+	}
+	for k := 0; k < 6; k++ {
+		out.P("step y")
+	}
+	out.P("force y")
+	for k := 0; k < 24; k++ {
+		out.P("step x")
+	}
+	for k := 0; k < 24; k++ {
+		out.P("step y")
+	}
+}
+
 func (e *eng) Gen(r *hx.Rand, n int, tier string, prop string, out *hx.Out) {
+	genManyTables(out, prop)
 	if tier == "thorough" {
 		genSystematic(out, prop)
 	}
@@ -164,6 +187,9 @@ func (e *eng) Gen(r *hx.Rand, n int, tier string, prop string, out *hx.Out) {
 			}
 			if g.Chance(6) {
 				out.P("iwatch %d", g.Intn(ntab))
+			}
+			if g.Chance(8) {
+				out.P("lwatch %d", g.Intn(ntab))
 			}
 		}
 		// finish everything: round robin
